@@ -105,6 +105,24 @@ def check_pair(shape, a_args, b_args):
             common.names(add), common.names(lit), common.names(la), common.names(lb)), KNOWN_ADD if region else None))
     if (ids(list(A)), ids(list(B))) != before:
         bad.append(('operands-modified', '+ or - modified an operand', None))
+    # "none of these operations modifies its operands": every observer of both operands answers as before, and the
+    # operations give the same results when repeated and in the other order (no state left behind by an earlier operation)
+    for X, lx, nm in ((A, la, 'A'), (B, lb, 'B')):
+        for I in ifs:
+            if (I in X) is not any(I is x for x in lx):
+                bad.append(('operands-modified-contains', 'after A + B and A - B: %s in %s is %r, the interfaces of %s are %s' % (
+                    I.__name__, nm, I in X, nm, common.names(lx)), None))
+        if lx and {id(x) for x in X.flattened()} != {id(y) for x in lx for y in x.__iro__} | {id(Interface)}:
+            bad.append(('operands-modified-flattened', 'after A + B and A - B: flattened() of %s changed' % nm, None))
+    if ids(list(A + B)) != ids(add) or ids(list(A - B)) != ids(sub):
+        bad.append(('operands-modified-repeat', 'A + B / A - B give another result when repeated (A=%s, B=%s)' % (common.names(la), common.names(lb)), None))
+    rev = list(B + A)
+    if {id(x) for x in rev} != {id(x) for x in la + lb} or len(set(ids(rev))) != len(rev) or \
+            ids([i for i in rev if any(i is x for x in lb)]) != ids(lb):
+        bad.append(('operands-modified-reverse', 'B + A after A + B = %s is not the ordered union keeping B\'s order (A=%s, B=%s)' % (
+            common.names(rev), common.names(la), common.names(lb)), None))
+    if ids(list(A + A)) != ids(la) or list(A - A) != []:
+        bad.append(('self-operations', 'A + A / A - A are not A / empty after the earlier operations (A=%s)' % common.names(la), None))
     return bad
 
 
